@@ -22,7 +22,7 @@ YOUR TASK: produce a realistic change (a plausible regression or subtle bug, the
   (2) the existing test suite still passes for the packages you touched and their dependents (at least: `cd {wt} && go test -mod=mod -vet=off -count=1 ./pkg/...` must not have new failures; note that on the untouched tree exactly these tests already fail and may be ignored: pkg/agent TestExecutableForPlatform*, pkg/synchronization/core TestScan and TestTransition),
   (3) the break needs something SPECIFIC to manifest - a particular interleaving, a crash or fault at a particular point, a multi-step sequence of operations, an unusual input, or two cooperating code sites that each look fine alone - NOT something that ordinary use or the simplest input would expose at once.
 
-Also write a DEMONSTRATION: a Go test file (or small Go program) inside the worktree that FAILS (or prints a clear failure) with your change applied and PASSES without it. Verify both directions yourself (use `git stash` or `git diff > patch; git checkout` to toggle your source change while keeping the demo).
+Also write a DEMONSTRATION: a Go test file (or small Go program) inside the worktree that FAILS (or prints a clear failure) with your change applied and PASSES without it. Verify both directions yourself (toggle your source change with `git diff > patch.diff; git apply -R patch.diff` and `git apply patch.diff`, keeping the demo; do NOT use `git stash`: the stash list is shared with other worktrees of the same repository that other people are using right now).
 
 Deliver, all inside {wt}:
   - {wt}/patch.diff : output of `git diff` containing ONLY your change to existing non-test source files (not the demo, not patch.diff itself). Keep the change small (ideally < 30 lines).
